@@ -7,7 +7,7 @@ import json
 import os
 
 from report import AnalysisError, VERIF
-from pyfront import Repo, CFG, canon, guard_literals, literals, calls_in, qualname
+from pyfront import Repo, CFG, canon, guard_literals, literals, calls_in, qualname, attr_accesses
 from pyutil import params, deep_subst, find_calls, lit_fmt, rel, branch_subst
 from dtable import Walker
 from symfwd import Fwd, subst_expr
@@ -135,18 +135,32 @@ def r2_formulas(L, repo):
             e = inline_props(repo, ci, s.value, SRC)
             t = X.PyLower(const=const).lower(e)
             co, c0 = X.linear(t)
-            pl = const(ast.parse("self.PATH_LOSS_DEFAULT", mode="eval").body)
-            want = ({"%s.tx_power_base" % SRC: 1, "%s.tx_att_base" % SRC: -1, "%s.pwr" % SMSG: -1}, -pl if pl is not None else None)
-            L.require("C10.R2", F, fn, "RSSI = sender nominal power - sender attenuation - burst attenuation - path loss",
-                      want, (co, c0), line=s.lineno)
+            # the path-loss term: a non-positive constant, or -1 x a configuration attribute of the recipient that is
+            # written only by its constructor (the property fixes the form of the sum, not the number of dB)
+            co = dict(co)
+            pl_attr = [k for k in co if k.startswith("self.") and co[k] == -1]
+            pl_desc = c0
+            if len(pl_attr) == 1 and c0 == 0:
+                a_ = pl_attr[0][5:]
+                writers = set()
+                for m_ in repo.tk_modules():
+                    for n_, k_ in attr_accesses(m_.tree, a_):
+                        if k_ != "load":
+                            writers.add(qualname(n_))
+                if writers <= {"FakeTRX.__init__"} and writers:
+                    del co[pl_attr[0]]
+                    pl_desc = "-%s (set by the constructor only)" % pl_attr[0]
+            want = {"%s.tx_power_base" % SRC: 1, "%s.tx_att_base" % SRC: -1, "%s.pwr" % SMSG: -1}
+            okc = isinstance(pl_desc, str) or (isinstance(pl_desc, int) and pl_desc <= 0)
+            L.ob("C10.R2", F, fn, "RSSI = sender nominal power - sender attenuation - burst attenuation - path loss",
+                 (want, "- path loss (a constant or a constructor-only attribute of the recipient)"), (co, pl_desc),
+                 co == want and okc, s.lineno)
         elif ("self.fake_rssi_enabled", True) in lits:
             seen["fake"] += 1
             L.require("C10.R2", F, fn, "with FAKE_RSSI the value comes from the recipient's RSSI window", "self.rssi", v, line=s.lineno)
         else:
             seen["noise"] += 1
     L.require("C10.R2", F, fn, "RSSI stores (formula, FAKE_RSSI, NOPE noise)", {"formula": 1, "fake": 1, "noise": 1}, seen)
-    pl = const(ast.parse("self.PATH_LOSS_DEFAULT", mode="eval").body)
-    L.require("C10.R2", F, "FakeTRX", "path loss constant (dB)", 110, pl)
     # ToA256: base - 256 * TA
     st = [n for n in ast.walk(hd) if isinstance(n, (ast.Assign, ast.AugAssign)) and
           canon(n.targets[0] if isinstance(n, ast.Assign) else n.target) == "%s.toa256" % MSG]
@@ -292,11 +306,70 @@ def r3_mod_tsc(L, repo):
         seqs.setdefault(m.value[1].name, []).append(m.value[2])
     for bt, ss in seqs.items():
         L.ob("C10.R3", FG, "TrainingSeqGMSK", "%s sequences are pairwise distinct" % bt, "distinct", len(ss), len(set(ss)) == len(ss))
-    # pick(): slices
+    # pick(): decided by folding it for witness bursts (every sequence placed at the position of its burst type, in
+    # 148- and 444-bit bursts, two sequences of different types at once, no sequence at all); the reference result is
+    # the first member in definition order whose sequence equals the burst slice at its type's position
     c3, pk = repo.find_method(tci, "pick")
+    if pk is None:
+        raise AnalysisError("TrainingSeqGMSK.pick vanished")
     B = params(pk)[1]
+    from consteval import ClassRef as _CR
+
+    def ref_pick(burst):
+        for m in members:
+            o = ref["offsets"][m.value[1].name]
+            if bytes(burst[o["start"]:][:o["len"]]) == bytes(int(ch) for ch in m.value[2]):
+                return m.name
+        return None
+
+    def place(burst, m):
+        o = ref["offsets"][m.value[1].name]
+        for i, ch in enumerate(m.value[2]):
+            burst[o["start"] + i] = int(ch)
+        return burst
+    wit = [("no training sequence (all zeros)", bytearray(148)), ("no training sequence (all ones)", bytearray([1] * 148))]
+    for m in members:
+        wit.append(("%s in a 148-bit burst" % m.name, place(bytearray(148), m)))
+    for m in members[::5]:
+        wit.append(("%s in a 444-bit burst" % m.name, place(bytearray(444), m)))
+    by_bt = {}
+    for m in members:
+        by_bt.setdefault(m.value[1].name, m)
+    bts_ = sorted(by_bt)
+    for i_ in range(len(bts_)):
+        for j_ in range(i_ + 1, len(bts_)):
+            wit.append(("%s and %s in one burst" % (by_bt[bts_[i_]].name, by_bt[bts_[j_]].name),
+                        place(place(bytearray(148), by_bt[bts_[i_]]), by_bt[bts_[j_]])))
+    folded_pick = True
+    res = []
+    for title, burst in wit:
+        try:
+            r = Ev(repo, gs).call_func(pk, gs, [(params(pk)[0], _CR(tci)), (B, burst)], self_cls=tci)
+        except Unknown:
+            folded_pick = False
+            break
+        except Raised as ex:
+            r = "raises %s" % ex.cls
+        res.append((title, ref_pick(burst), getattr(r, "name", r)))
+    L.extra["c10_pick_folded"] = folded_pick
+    if folded_pick:
+        for title, want_, got_ in res:
+            L.require("C10.R3", FG, "TrainingSeqGMSK.pick", "pick() for %s" % title, want_, got_, line=pk.lineno)
+        L.floor("C10.R3", "pick() witness bursts folded", len(res), 25)
     # which slice is compared for which burst type: enumerate the paths of one loop iteration
+    # (structural proof for every burst; when the code has another shape the witness fold above decides)
     loops = [n for n in pk.body if isinstance(n, ast.For)]
+    if folded_pick:
+        try:
+            _pick_structure(L, repo, pk, B, gs, ref, FG, loops)
+        except AnalysisError as e:
+            L.extra["c10_pick_structure"] = "not recognised (%s); decided by the witness fold" % str(e)[:80]
+    else:
+        _pick_structure(L, repo, pk, B, gs, ref, FG, loops)
+    _generators(L, repo, ref)
+
+
+def _pick_structure(L, repo, pk, B, gs, ref, FG, loops):
     if len(loops) != 1:
         raise AnalysisError("TrainingSeqGMSK.pick: expected one loop over the sequences")
     loopvar = canon(loops[0].target)
@@ -343,6 +416,9 @@ def r3_mod_tsc(L, repo):
     L.require("C10.R3", FG, "TrainingSeqGMSK.pick", "all sequences are tried", "list(self)" , canon(loops[0].iter).replace("list(cls)", "list(self)"))
     rets = [canon(n.value) for n in pk.body if isinstance(n, ast.Return)]
     L.require("C10.R3", FG, "TrainingSeqGMSK.pick", "no match yields None", ["None"], rets)
+
+
+def _generators(L, repo, ref):
     # generators: length tracking
     FR = rel("rand_burst_gen")
     L.unit(FR)
